@@ -45,7 +45,7 @@ class N(object):
 # not support non-str names at all; no listed property promises that they do
 UNSUPPORTED = ("cat_header", "movefield", "movefield_end", "sortheader", "sortheader_reverse", "unjoin_nokey_left",
                "recordcomplement", "recorddiff0", "recorddiff1", "aggregate_multi", "aggregate_multi_none", "filldown",
-               "fieldmap", "header", "fieldnames", "diffheaders")
+               "fieldmap", "fieldmap_failing", "header", "fieldnames", "diffheaders")
 
 
 def eligible(e):
